@@ -41,6 +41,57 @@ pub enum Case05 {
         attr: u16,
         word: u32,
     },
+    /// related inputs (the same message, a copy differing in one octet, in
+    /// one header field, in its options, cut short or extended) decoded one
+    /// after the other on one thread: the accepted language must not
+    /// depend on what was decoded before
+    Family(Vec<Case05>),
+}
+
+/// Inputs related to `b` the way a memo keyed too coarsely (length, header,
+/// leading octets, checksum) would confuse them.
+pub fn related_inputs(rng: &mut Rng, b: &[u8], n: usize) -> Vec<Vec<u8>> {
+    let mut out = Vec::new();
+    for _ in 0..n {
+        let mut v = b.to_vec();
+        match rng.below(9) {
+            0 | 1 => {}
+            2 if !v.is_empty() => {
+                // one bit somewhere
+                let i = rng.usize_below(v.len());
+                v[i] ^= 1 << rng.below(8);
+            }
+            3 if !v.is_empty() => {
+                // one bit in the last octets (a value, not a header)
+                let i = v.len() - 1 - rng.usize_below(v.len().min(8));
+                v[i] ^= 1 << rng.below(8);
+            }
+            4 if v.len() >= 12 => {
+                // another tunnel / session / Ns / Nr
+                let f = 4 + 2 * rng.usize_below(4);
+                v[f + 1] = v[f + 1].wrapping_add(1);
+            }
+            5 if v.len() >= 14 => {
+                // two octets swapped: same length, same octet sum
+                let i = rng.urange(12, v.len() - 2);
+                v.swap(i, i + 1);
+            }
+            6 if !v.is_empty() => {
+                v.pop();
+            }
+            7 => v.push(rng.u8()),
+            _ => {
+                // same length and header, everything after it different
+                if v.len() > 20 {
+                    let n = v.len();
+                    let r = rng.bytes(4);
+                    v[n - 4..].copy_from_slice(&r);
+                }
+            }
+        }
+        out.push(v);
+    }
+    out
 }
 
 fn hexcut(b: &[u8]) -> String {
@@ -98,6 +149,25 @@ fn first_avp_diff(a: &SpecMessage, b: &SpecMessage) -> String {
 
 fn exec_c05(case: &Case05, obs: &mut Obs) -> Result<(), Failure> {
     match case {
+        Case05::Family(items) => {
+            obs.count("probe:related-input-family");
+            // on a thread of its own: the family is a complete history
+            on_fresh_thread(|| {
+                for (i, it) in items.iter().enumerate() {
+                    if matches!(it, Case05::Family(_)) {
+                        continue;
+                    }
+                    if let Err(mut f) = exec_c05(it, obs) {
+                        if items.len() > 1 {
+                            f.class = format!("family:{}", f.class);
+                            f.detail = format!("input #{i} of {} related inputs decoded one after the other: {}", items.len(), f.detail);
+                        }
+                        return Err(f);
+                    }
+                }
+                Ok(())
+            })
+        }
         Case05::Accessors { attr, word } => {
             obs.steps += 1;
             let bits = cal(*attr).map_err(|e| {
@@ -310,6 +380,25 @@ fn shrink05(c: &Case05) -> Vec<Case05> {
     let mut out = Vec::new();
     match c {
         Case05::Accessors { .. } => {}
+        Case05::Family(items) => {
+            if items.len() == 1 {
+                out.push(items[0].clone());
+            }
+            for i in 0..items.len() {
+                let mut v = items.clone();
+                v.remove(i);
+                if !v.is_empty() {
+                    out.push(Case05::Family(v));
+                }
+            }
+            for i in 0..items.len() {
+                for alt in shrink05(&items[i]).into_iter().take(10) {
+                    let mut v = items.clone();
+                    v[i] = alt;
+                    out.push(Case05::Family(v));
+                }
+            }
+        }
         Case05::Avps { bytes, reader } => {
             if *reader != ReaderCfg::Real {
                 out.push(Case05::Avps {
@@ -592,6 +681,27 @@ impl Scenario for C05 {
         let mut sm = rng.fork("seams");
         let primary = Opts::from_index(wl.below(8) as u8);
         let msgs = traffic(&mut wl, &sw, primary, ctx.obs);
+        // one family of related inputs per run, from one delivered message
+        let fam = {
+            let small: Vec<&Vec<u8>> = msgs.iter().filter(|m| m.len() <= 2000).collect();
+            if small.is_empty() {
+                None
+            } else {
+                let base = (*wl.pick(&small)).clone();
+                let n = wl.urange(3, 6);
+                let o = wl.below(8) as u8;
+                let items: Vec<Case05> = related_inputs(&mut wl, &base, n)
+                    .into_iter()
+                    .map(|bytes| Case05::Msg {
+                        bytes,
+                        opts: if wl.chance(3, 4) { o } else { wl.below(8) as u8 },
+                        reader: ReaderCfg::Real,
+                        dc_seed: 0,
+                    })
+                    .collect();
+                Some(Case05::Family(items))
+            }
+        };
         for (k, b) in msgs.into_iter().enumerate() {
             let reader = if sm.chance(1, 3) {
                 ReaderCfg::Real
@@ -616,6 +726,9 @@ impl Scenario for C05 {
                 bytes: b[from..].to_vec(),
                 reader,
             });
+        }
+        if let Some(f) = fam {
+            ctx.check::<C05>(&f);
         }
         if ctx.run % 4 == 0 {
             for attr in [3u16, 4, 18, 19] {
